@@ -235,90 +235,6 @@ theorem fileName_normal (pre name : List Char) (hp : DirPrefix pre) (hn : Normal
   rw [lastComponentRev_normal pre name hp hn]
   simp [hn.1, hn.2.2.1, hn.2.2.2]
 
-theorem withExtensionRs_normal (pre name : List Char) (hp : DirPrefix pre) (hn : Normal name) :
-    withExtensionRs (pre ++ name) = pre ++ fileStem name ++ rsExt := by
-  unfold withExtensionRs
-  rw [fileName_normal pre name hp hn, lastComponentRev_normal pre name hp hn]
-  simp
-
-theorem pathJoin_dirSlash (d name : List Char) : pathJoin d name = dirSlash d ++ name ∧ DirPrefix (dirSlash d) := by
-  unfold pathJoin dirSlash DirPrefix
-  cases h : d.getLast? with
-  | none => simp
-  | some c =>
-    by_cases hc : c = '/'
-    · simp [hc, h]
-    · simp [hc]
-
-/-- **destination path.**  For every query path `pre ++ name` (`name` a normal file name, `pre` empty
-or ending in `/`): the query's file name is `name`; without `-o` the code goes to
-`pre ++ stem(name) ++ ".rs"` — beside the query file —, with `-o d` to `d/ ++ stem(name) ++ ".rs"`. -/
-theorem dest_path (pre name : List Char) (hp : DirPrefix pre) (hn : Normal name) :
-    fileName (pre ++ name) = some name ∧
-    destPath none (pre ++ name) = some (pre ++ fileStem name ++ rsExt) ∧
-    ∀ d, destPath (some d) (pre ++ name) = some (dirSlash d ++ fileStem name ++ rsExt) := by
-  refine ⟨fileName_normal pre name hp hn, ?_, ?_⟩
-  · unfold destPath
-    rw [fileName_normal pre name hp hn, withExtensionRs_normal pre name hp hn]
-  · intro d
-    unfold destPath
-    rw [fileName_normal pre name hp hn]
-    simp only []
-    rw [(pathJoin_dirSlash d name).1, withExtensionRs_normal _ name (pathJoin_dirSlash d name).2 hn]
-
-example : Normal "a.b.graphql".toList := by unfold Normal; decide +kernel
-example : DirPrefix "q/sub/".toList := by unfold DirPrefix; decide +kernel
-example : destPath (some "out".toList) "q/a.b.graphql".toList = some "out/a.b.rs".toList := by decide +kernel
-example : destPath none "q/.graphql".toList = some "q/.graphql.rs".toList := by decide +kernel
-
-/-- without a file name (``""``, `/`, `.`, a path ending in `..`) there is no destination -/
-theorem dest_path_none (d : Option (List Char)) (q : List Char) : destPath d q = none ↔ fileName q = none := by
-  unfold destPath
-  cases fileName q with
-  | none => simp
-  | some n => cases d <;> simp
-
-/-- what `Path` ignores at the end of a path: any sequence of `/` and `/.` -/
-inductive Trail : List Char → Prop where
-  | nil : Trail []
-  | slash {t} : Trail t → Trail (t ++ ['/'])
-  | slashDot {t} : Trail t → Trail (t ++ ['/', '.'])
-
-/-- trailing separators and `.` components change neither the file name nor the destination -/
-theorem dest_path_trailing (p t : List Char) (ht : Trail t) :
-    fileName (p ++ t) = fileName p ∧
-    (fileName p ≠ none → ∀ d, destPath d (p ++ t) = destPath d p) := by
-  have hskip : skipTrail (p ++ t).reverse = skipTrail p.reverse := by
-    induction ht with
-    | nil => simp
-    | slash _ ih =>
-      rw [← List.append_assoc, List.reverse_append]
-      simp only [List.reverse_cons, List.reverse_nil, List.nil_append, List.cons_append]
-      rw [skipTrail_slash]; exact ih
-    | slashDot _ ih =>
-      rw [← List.append_assoc, List.reverse_append]
-      simp only [List.reverse_cons, List.reverse_nil, List.nil_append, List.cons_append]
-      rw [skipTrail_dotSlash]; exact ih
-  have hlc : lastComponentRev (p ++ t) = lastComponentRev p := by
-    unfold lastComponentRev; rw [hskip]
-  have hfn : fileName (p ++ t) = fileName p := by unfold fileName; rw [hlc]
-  refine ⟨hfn, ?_⟩
-  intro hne d
-  unfold destPath
-  rw [hfn]
-  cases h : fileName p with
-  | none => exact absurd h hne
-  | some n =>
-    cases d with
-    | some dir => rfl
-    | none =>
-      simp only []
-      unfold withExtensionRs
-      rw [hfn, hlc, h]
-
-example : Trail "/.//".toList :=
-  Trail.slash (t := "/./".toList) (Trail.slash (t := "/.".toList) (Trail.slashDot (t := []) Trail.nil))
-
 /-- **the stem**: a name without a dot, or whose only dot is the first character, is its own stem;
 otherwise the stem is what precedes the **last** dot (`a.b.graphql` ↦ `a.b`). -/
 theorem stem_spec (n : List Char) (hn : n ≠ ['.', '.']) :
@@ -345,6 +261,181 @@ example : fileStem "a.b.graphql".toList = "a.b".toList := by decide +kernel
 example : fileStem ".graphql".toList = ".graphql".toList := by decide +kernel
 example : fileStem "noext".toList = "noext".toList := by decide +kernel
 
+theorem exists_last_dot (n : List Char) (h : '.' ∈ n) :
+    ∃ before after, n = before ++ '.' :: after ∧ '.' ∉ after := by
+  induction n with
+  | nil => cases h
+  | cons c cs ih =>
+    by_cases hcs : '.' ∈ cs
+    · obtain ⟨b, a, heq, ha⟩ := ih hcs
+      exact ⟨c :: b, a, by simp [heq], ha⟩
+    · have hc : c = '.' := by
+        cases h with
+        | head => rfl
+        | tail _ h' => exact absurd h' hcs
+      exact ⟨[], cs, by simp [hc], hcs⟩
+
+/-- `Path::extension`: what follows the last dot, unless there is no dot or only a leading one -/
+theorem ext_spec (n : List Char) (hn : n ≠ ['.', '.']) :
+    ('.' ∉ n → extensionOf n = none) ∧
+    (∀ before after, n = before ++ '.' :: after → '.' ∉ after →
+        extensionOf n = if before = [] then none else some after) := by
+  constructor
+  · intro h; simp [extensionOf, hn, h]
+  · intro before after heq hafter
+    have hmem : '.' ∈ n := by rw [heq]; simp
+    unfold extensionOf
+    simp only [hn, ↓reduceIte, hmem]
+    have hrev : n.reverse = after.reverse ++ ('.' :: before.reverse) := by rw [heq]; simp
+    have hall : ∀ c ∈ after.reverse, (fun x : Char => decide (x ≠ '.')) c = true := by
+      intro c hc
+      have : c ∈ after := by simpa using hc
+      have : c ≠ '.' := fun h => hafter (h ▸ this)
+      simpa using this
+    have := takeWhile_append_stop _ after.reverse ('.' :: before.reverse) hall (by simp)
+    rw [hrev, this.1, this.2]
+    simp
+
+theorem setExtensionRs_normal (pre name : List Char) (hp : DirPrefix pre) (hn : Normal name) :
+    setExtensionRs (pre ++ name) = pre ++ fileStem name ++ rsExt := by
+  unfold setExtensionRs
+  rw [fileName_normal pre name hp hn, lastComponentRev_normal pre name hp hn]
+  simp
+
+/-- the one shape of file name on which `with_extension` does not give `<stem>.rs`: `..` followed by a
+dot-less extension (cutting the extension leaves `..`, which is no file name) -/
+def NoQuirk (name : List Char) : Prop := ∀ ext, name = '.' :: '.' :: ext → '.' ∈ ext
+
+theorem withExtensionRs_normal (pre name : List Char) (hp : DirPrefix pre) (hn : Normal name) (hq : NoQuirk name) :
+    withExtensionRs (pre ++ name) = pre ++ fileStem name ++ rsExt := by
+  unfold withExtensionRs
+  rw [fileName_normal pre name hp hn]
+  simp only [Option.bind]
+  by_cases hdot : '.' ∈ name
+  · obtain ⟨before, after, heq, hafter⟩ := exists_last_dot name hdot
+    have hext := (ext_spec name hn.2.2.2).2 before after heq hafter
+    by_cases hb : before = []
+    · rw [hext, if_pos hb]; exact setExtensionRs_normal pre name hp hn
+    · rw [hext, if_neg hb]
+      simp only []
+      have htake : (pre ++ name).take ((pre ++ name).length - after.length) = pre ++ (before ++ ['.']) := by
+        have h1 : pre ++ name = (pre ++ (before ++ ['.'])) ++ after := by rw [heq]; simp
+        rw [h1]
+        apply List.take_left'
+        simp; omega
+      rw [htake]
+      have hn' : Normal (before ++ ['.']) := by
+        refine ⟨by simp, ?_, ?_, ?_⟩
+        · intro h
+          simp only [List.mem_append, List.mem_singleton] at h
+          cases h with
+          | inl h => exact hn.2.1 (by rw [heq]; simp [h])
+          | inr h => exact absurd h (by decide)
+        · intro h
+          cases before with
+          | nil => exact hb rfl
+          | cons x xs => simp at h
+        · intro h
+          cases before with
+          | nil => exact hb rfl
+          | cons x xs =>
+            cases xs with
+            | nil =>
+              simp at h
+              have := hq after (by rw [heq, h]; rfl)
+              exact hafter this
+            | cons y ys => simp at h
+      rw [setExtensionRs_normal pre _ hp hn']
+      have h1 := (stem_spec (before ++ ['.']) hn'.2.2.2).2 before [] (by simp) (by simp)
+      have h2 := (stem_spec name hn.2.2.2).2 before after heq hafter
+      rw [h1, h2, if_neg hb, if_neg hb]
+  · rw [(ext_spec name hn.2.2.2).1 hdot]
+    exact setExtensionRs_normal pre name hp hn
+
+theorem pathJoin_dirSlash (d name : List Char) : pathJoin d name = dirSlash d ++ name ∧ DirPrefix (dirSlash d) := by
+  unfold pathJoin dirSlash DirPrefix
+  cases h : d.getLast? with
+  | none => simp
+  | some c =>
+    by_cases hc : c = '/'
+    · simp [hc, h]
+    · simp [hc]
+
+/-- **destination path.**  For every query path `pre ++ name` (`name` a normal file name, `pre` empty
+or ending in `/`; `name` not of the shape `..ext`, see `dotdot_ext_quirk`): the query's file name is
+`name`; without `-o` the code goes to `pre ++ stem(name) ++ ".rs"` — beside the query file —, with
+`-o d` to `d/ ++ stem(name) ++ ".rs"`. -/
+theorem dest_path (pre name : List Char) (hp : DirPrefix pre) (hn : Normal name) (hq : NoQuirk name) :
+    fileName (pre ++ name) = some name ∧
+    destPath none (pre ++ name) = some (pre ++ fileStem name ++ rsExt) ∧
+    ∀ d, destPath (some d) (pre ++ name) = some (dirSlash d ++ fileStem name ++ rsExt) := by
+  refine ⟨fileName_normal pre name hp hn, ?_, ?_⟩
+  · unfold destPath
+    rw [fileName_normal pre name hp hn, withExtensionRs_normal pre name hp hn hq]
+  · intro d
+    unfold destPath
+    rw [fileName_normal pre name hp hn]
+    simp only []
+    rw [(pathJoin_dirSlash d name).1, withExtensionRs_normal _ name (pathJoin_dirSlash d name).2 hn hq]
+
+example : Normal "a.b.graphql".toList := by unfold Normal; decide +kernel
+example : NoQuirk "..hidden.graphql".toList := by
+  intro ext h
+  have : ext = ['h', 'i', 'd', 'd', 'e', 'n', '.', 'g', 'r', 'a', 'p', 'h', 'q', 'l'] := by
+    have h' : "..hidden.graphql".toList = ['.', '.', 'h', 'i', 'd', 'd', 'e', 'n', '.', 'g', 'r', 'a', 'p', 'h', 'q', 'l'] := by decide +kernel
+    rw [h'] at h
+    simpa using h.symm
+  rw [this]; decide
+
+/-- **the excluded shape is really different** (and the harness replays it on the binary): for a query
+file named `..graphql` the destination is `q/..` — a directory — not `q/..rs`. -/
+theorem dotdot_ext_quirk :
+    destPath none ['q', '/', '.', '.', 'g', 'r', 'a', 'p', 'h', 'q', 'l'] = some ['q', '/', '.', '.'] ∧
+    fileStem ['.', '.', 'g', 'r', 'a', 'p', 'h', 'q', 'l'] = ['.'] := by decide +kernel
+example : DirPrefix "q/sub/".toList := by unfold DirPrefix; decide +kernel
+example : destPath (some "out".toList) "q/a.b.graphql".toList = some "out/a.b.rs".toList := by decide +kernel
+example : destPath none "q/.graphql".toList = some "q/.graphql.rs".toList := by decide +kernel
+
+/-- without a file name (``""``, `/`, `.`, a path ending in `..`) there is no destination -/
+theorem dest_path_none (d : Option (List Char)) (q : List Char) : destPath d q = none ↔ fileName q = none := by
+  unfold destPath
+  cases fileName q with
+  | none => simp
+  | some n => cases d <;> simp
+
+/-- what `Path` ignores at the end of a path: any sequence of `/` and `/.` -/
+inductive Trail : List Char → Prop where
+  | nil : Trail []
+  | slash {t} : Trail t → Trail (t ++ ['/'])
+  | slashDot {t} : Trail t → Trail (t ++ ['/', '.'])
+
+/-- trailing separators and `.` components do not change the file name, hence not the destination
+under `-o` (for the default placement nothing is claimed here: such a query path cannot be opened as
+a file; the model is compared with `std::path` on such strings by the harness) -/
+theorem dest_path_trailing (p t : List Char) (ht : Trail t) :
+    fileName (p ++ t) = fileName p ∧ ∀ dir, destPath (some dir) (p ++ t) = destPath (some dir) p := by
+  have hskip : skipTrail (p ++ t).reverse = skipTrail p.reverse := by
+    induction ht with
+    | nil => simp
+    | slash _ ih =>
+      rw [← List.append_assoc, List.reverse_append]
+      simp only [List.reverse_cons, List.reverse_nil, List.nil_append, List.cons_append]
+      rw [skipTrail_slash]; exact ih
+    | slashDot _ ih =>
+      rw [← List.append_assoc, List.reverse_append]
+      simp only [List.reverse_cons, List.reverse_nil, List.nil_append, List.cons_append]
+      rw [skipTrail_dotSlash]; exact ih
+  have hlc : lastComponentRev (p ++ t) = lastComponentRev p := by
+    unfold lastComponentRev; rw [hskip]
+  have hfn : fileName (p ++ t) = fileName p := by unfold fileName; rw [hlc]
+  refine ⟨hfn, ?_⟩
+  intro dir
+  unfold destPath
+  rw [hfn]
+
+example : Trail "/.//".toList :=
+  Trail.slash (t := "/./".toList) (Trail.slash (t := "/.".toList) (Trail.slashDot (t := []) Trail.nil))
+
 theorem mem_fileStem (n : List Char) (c : Char) (h : c ∈ fileStem n) : c ∈ n := by
   unfold fileStem at h
   split at h
@@ -360,7 +451,8 @@ theorem mem_fileStem (n : List Char) (c : Char) (h : c ∈ fileStem n) : c ∈ n
     · exact h
 
 /-- the file that is written is itself named `<stem>.rs` (round trip through `file_name`) -/
-theorem dest_file_name (pre name : List Char) (hp : DirPrefix pre) (hn : Normal name) (d : Option (List Char)) :
+theorem dest_file_name (pre name : List Char) (hp : DirPrefix pre) (hn : Normal name) (hq : NoQuirk name)
+    (d : Option (List Char)) :
     ∃ p, destPath d (pre ++ name) = some p ∧ fileName p = some (fileStem name ++ rsExt) := by
   have hn' : Normal (fileStem name ++ rsExt) := by
     refine ⟨by simp [rsExt], ?_, ?_, ?_⟩
@@ -371,7 +463,7 @@ theorem dest_file_name (pre name : List Char) (hp : DirPrefix pre) (hn : Normal 
       | inr h => simp [rsExt] at h
     · intro h; have := congrArg List.length h; simp [rsExt] at this
     · intro h; have := congrArg List.length h; simp [rsExt] at this
-  obtain ⟨_, h1, h2⟩ := dest_path pre name hp hn
+  obtain ⟨_, h1, h2⟩ := dest_path pre name hp hn hq
   cases d with
   | none => exact ⟨_, h1, by rw [List.append_assoc]; exact fileName_normal _ _ hp hn'⟩
   | some dir =>
